@@ -210,6 +210,20 @@ func init() {
 			items = append(items, item{p + "$domain=example.org", "mask"})
 			items = append(items, item{p + "$domain=example.org,match-case", "mask"})
 		})
+		// patterns of many pieces (7..12 special characters between literals of growing length)
+		for _, seps := range []string{"*", "^", "*^", "|*"} {
+			for _, n := range []int{7, 8, 9, 12} {
+				var sb strings.Builder
+				for k := 0; k < n; k++ {
+					sb.WriteString(string(rune('a'+k)) + strings.Repeat(string(rune('a'+k)), k%3))
+					sb.WriteByte(seps[k%len(seps)])
+				}
+				sb.WriteString("hi" + string(seps[0]) + "j")
+				for _, pre := range []string{"", "||", "|"} {
+					items = append(items, item{pre + sb.String() + "$domain=example.org", "mask-many-pieces"})
+				}
+			}
+		}
 		// mask patterns over multi-character literals (pieces long enough to become shortcuts)
 		maskToks := []string{"||", "|", "*", "^", "ab", "Cd", "z1", "/", "."}
 		for l := 1; l <= 4; l++ {
